@@ -34,7 +34,7 @@ class Calls:
                      'is_none', 'hashable', 'callraises', 'call', 'fresh_obj', 'is_int_key', 'int_key', 'ite', 'attr',
                      'has_attr', 'catches', 'exc_is', 'iff', 'dynattr', 'truthy', 'key_at', 'idx_of', 'old', 'is_fresh',
                      'seq_of', 'card', 'same_elements', 'typeof', 'callv', 'callvraises', 'isinst_dyn', 'lt', 'unhashable_any',
-                     'mhas', 'mget', 'shas', 'without_key', 're_compile_raises', 're_compile', 'as_map', 'as_seq', 'as_set', 'sat', 'slen', 'mlen', 'methraises', 'methcall', 'gen_of'}
+                     'mhas', 'mget', 'shas', 'without_key', 're_compile_raises', 're_compile', 'as_map', 'as_seq', 'as_set', 'sat', 'slen', 'mlen', 'methraises', 'methcall', 'gen_of', 'nth_where', 'count_where', 'ghost', 'zlen'}
 
     # ------------------------------------------------------------------------------------
     def ev_Call(self, node, st):
@@ -50,6 +50,8 @@ class Calls:
             # spec quantifiers take lambdas unevaluated
             if isinstance(f, VBuiltin) and f.name in ('spec.forall', 'spec.exists', 'spec.forall_val', 'spec.exists_val'):
                 return self.spec_quant(f.name[5:], node, s)
+            if isinstance(f, VBuiltin) and f.name in ('spec.nth_where', 'spec.count_where'):
+                return self.spec_where(f.name[5:], node, s)
             if isinstance(f, VBuiltin) and f.name == 'spec.gen_of':
                 return self.spec_gen_of(node, s)
             if isinstance(f, VBuiltin) and f.name in ('spec.implies', 'spec.ite'):
@@ -108,6 +110,9 @@ class Calls:
         ev = th.fn('callvexcv_' + names, *sig, th.Val)(*args)
         if self.spec_mode or self.is_total_callable(f, node):
             return [(VVal(res, fresh=True), st)]
+        g = self.ghost_raises(node)
+        if g is not None:
+            cr = g
         s_ok = st.fork().add(z3.Not(cr))
         s_ex = st.fork().add(cr, ec != th.exc['BaseException'])
         return [(VVal(res, fresh=True), s_ok), (Raised(VExc(ec, ev, f'call:{self.src(node.func)}')), s_ex)]
@@ -123,6 +128,19 @@ class Calls:
         if isinstance(f, VVal):
             return self.call_value(f, args, kwargs, st, node)
         raise OutOfSubset(f'call of {type(f).__name__}', node)
+
+    def ghost_raises(self, node):
+        """shape 'ghostcall:NAME' on a call target: whether this call raises is the spec predicate
+        NAME(<entry parameters>) -- sound when the arguments are a deterministic function of the entry
+        parameters and the callee is deterministic (assumption A-user)."""
+        if node is None or not hasattr(node, 'func'):
+            return None
+        sh = self.shape_of(self.src(node.func))
+        if not sh or not sh.startswith('ghostcall:'):
+            return None
+        th = self.th
+        ps = [self.toVal(v, State({}, [])) for k, v in self.entry_env.items() if not k.startswith('$')]
+        return th.fn('ghost_' + sh[10:], *([th.Val] * len(ps)), th.B)(*ps)
 
     # -- user callables --------------------------------------------------------------------
     def is_total_callable(self, f, node) -> bool:
@@ -141,7 +159,7 @@ class Calls:
         sig = [th.Val] * (n + 1)
         res = th.fn(f'call_{n}{suffix}', *sig, th.Val)(*a)
         rk = self.shape_of(self.src(node.func) + '()') if node is not None else None
-        resv = VVal(res, fresh=False, kind=rk)
+        resv = self.mkval(res, rk, fresh=False)
         total = self.is_total_callable(f, node)
         if self.spec_mode:
             return [(resv, st)]
@@ -149,6 +167,9 @@ class Calls:
         ec = th.fn(f'cexc_{n}{suffix}', *sig, th.Exc)(*a)
         ev = th.fn(f'cexcv_{n}{suffix}', *sig, th.Val)(*a)
         origin = f'call:{self.src(node.func) if node is not None else "?"}'
+        g = self.ghost_raises(node)
+        if g is not None:
+            cr = g
 
         def finish(s2):
             if total:
@@ -279,7 +300,12 @@ class Calls:
     def inline_call(self, f: VFunc, args, kwargs, st, node, spec=False, self_sv=None):
         if self.depth > 12:
             raise OutOfSubset('inline depth exceeded (recursion?)', node)
-        env = dict(f.env) if f.env else {}
+        if f.frame is not None and st.env.get('$frame') == f.frame:
+            env = dict(st.env)          # closure called inside its defining activation: sees the live variables
+        else:
+            env = dict(f.env) if f.env else {}
+            self.frame_ctr += 1
+            env['$frame'] = self.frame_ctr
         env.update(self.bind_params(f.node, args, kwargs, st, self_sv=self_sv, module=f.module))
         saved = (self.cur_module, self.cur_class, self.spec_mode, st.env)
         self.cur_module = f.module
@@ -337,7 +363,7 @@ class Calls:
         ok_cond = None
         if con.returns_iff is not None:
             ok_cond = self.eval_clause(con.returns_iff[0], penv, st)
-        elif con.total or self.spec_mode:
+        elif con.total or con.no_raise is not None or self.spec_mode:
             ok_cond = z3.BoolVal(True)
         else:
             ok_cond = th.fn('rets_' + name, *([th.Val] * len(argv)), th.B)(*argv) if argv else z3.Bool('rets0_' + name)
@@ -427,6 +453,23 @@ class Calls:
         else:
             q = z3.Exists(ks, body)
         return [(VBool(q), st)]
+
+    def spec_where(self, which, node, st):
+        """nth_where(n, lambda i: cond, j) / count_where(n, lambda i: cond): canonical enumeration of kept indices."""
+        nsv, _ = self.ev1(node.args[0], st)
+        n = self.toInt(nsv, st)
+        lam = node.args[1]
+
+        def keep_at(i, s):
+            env = dict(st.env)
+            env[lam.args.args[0].arg] = VInt(i)
+            r, s2 = self.ev1(lam.body, State(env, s.pc, []))
+            return self.truth(r, s2)
+        cnt, pos, rank = self.kept_positions(keep_at, n, st)
+        if which == 'count_where':
+            return [(VInt(cnt), st)]
+        jsv, _ = self.ev1(node.args[2], st)
+        return [(VInt(pos(self.toInt(jsv, st))), st)]
 
     def spec_gen_of(self, node, st):
         """gen_of(n, lambda i: elem): the abstract one-shot iterable yielding elem(0..n-1) (canonical form)."""
